@@ -145,6 +145,19 @@ Definition ecase_ok (t : list param) (sch : list sentry) (c : ecase) : bool :=
       else rejected
   end.
 
+(* ---- array entries: minimum / maximum are published for the elements ---- *)
+Definition schema_allows_elem (s : sentry) (v : Q) : bool := ole (s_min s) v && oge (s_max s) v.
+
+(* one observed list read: schema idx, table idx, first element, other elements, did the implementation store the
+   supplied list (None: it raised) *)
+Definition lcase : Type := (nat * nat * Q * list Q * option bool)%type.
+Definition ob_eqb (a : option bool) (b : bool) : bool := match a with Some x => Bool.eqb x b | None => false end.
+Definition lcase_agrees (t : list param) (c : lcase) : bool :=
+  match c with (_, i, v, rest, st) => ob_eqb st (lstored (read_list (nth i t dummy_param) v rest)) end.
+(* the schema's bounds are the ones enforced: stored <-> every supplied element is schema-allowed *)
+Definition lcase_spec (sch : list sentry) (c : lcase) : bool :=
+  match c with (j, _, v, rest, st) => ob_eqb st (forallb (schema_allows_elem (nth j sch dummy_entry)) (v :: rest)) end.
+
 (* ---- committed = generated; result fields ---- *)
 Definition entry_in (l : list sentry) (e : sentry) : bool :=
   existsb (fun x => String.eqb (s_name x) (s_name e) && String.eqb (s_digest x) (s_digest e)) l.
